@@ -99,6 +99,8 @@ structure CallOpts where
   so : List (Nat × Nat) := []
   em : Bool := false
   dump : Bool := false
+  co : Nat := 0
+  zl : Option String := none
 
 def parsePair (v : String) : Option (Nat × Nat) :=
   match v.splitOn ":" with
@@ -116,6 +118,8 @@ def parseOpts (ts : List String) : Option CallOpts :=
       else if w.startsWith "oc=" then (w.drop 3).toString.toNat?.map fun n => { o with oc := some n }
       else if w.startsWith "si=" then (parsePair (w.drop 3).toString).map fun p => { o with si := o.si ++ [p] }
       else if w.startsWith "so=" then (parsePair (w.drop 3).toString).map fun p => { o with so := o.so ++ [p] }
+      else if w.startsWith "co=" then (w.drop 3).toString.toNat?.map fun n => { o with co := n }
+      else if w.startsWith "zl=" then some { o with zl := some (w.drop 3).toString }
       else if w == "em" then some { o with em := true }
       else if w == "dyn" then some o
       else if w == "dump" then some { o with dump := true }
@@ -185,14 +189,18 @@ def dataSection (chans : List (Option (Array σ))) (dump : Bool) : String :=
       else acc ++ " " ++ hexNat (fnv (v.toList.map (SNum.sbits (ρ := Float)))).toNat 16) "d"
 
 def makeInput (ofF : Float → σ) (sg : Sig) (consumed nGiven lenAll : Nat) (o : CallOpts)
-    (mask : Option (List Bool)) : List (Array σ) :=
+    (mask : Option (List Bool)) (inNext inMax : Nat) : List (Array σ) :=
+  let zl : Option Nat := o.zl.bind fun z => sizeSpec z inNext inMax
   (List.range nGiven).map fun ch =>
     let len := lastOverride o.si ch lenAll
     let act := match mask with
       | none => true
       | some m => (m[ch]?).getD true
     let len := if o.em && !act then 0 else len
-    (Array.range len).map fun k => ofF (sg.value ch (consumed + k))
+    (Array.range len).map fun k =>
+      match zl with
+      | some z => if k ≥ z then ofF 0.0 else ofF (sg.value (ch + o.co) (consumed + k))
+      | none => ofF (sg.value (ch + o.co) (consumed + k))
 
 def coreA : Core (AState Float σ) (Array σ) where
   inNext := AState.inputFramesNext
@@ -225,7 +233,7 @@ def opAsync (ofF : Float → σ) (s : AState Float σ) (consumed : Nat) (op : St
         match (if inNone then some 0 else sizeSpec insz s.inputFramesNext s.inputFramesMax),
               sizeSpec outsz s.outputFramesNext s.outputFramesMax with
         | some inlen, some outlen =>
-          let input := makeInput ofF sig consumed (o.ic.getD s.nch) inlen o mask
+          let input := makeInput ofF sig consumed (o.ic.getD s.nch) inlen o mask s.inputFramesNext s.inputFramesMax
           let outLens := (List.range (o.oc.getD s.nch)).map fun ch => lastOverride o.so ch outlen
           let input' := if partial_ then paddedInput coreA s (if inNone then none else some input) else input
           let (s', r) := s.process { input := input', outLens := outLens, mask := mask }
@@ -248,7 +256,7 @@ def opAsync (ofF : Float → σ) (s : AState Float σ) (consumed : Nat) (op : St
         let inNone := partial_ && insz == "none"
         match (if inNone then some 0 else sizeSpec insz s.inputFramesNext s.inputFramesMax) with
         | some inlen =>
-          let input := makeInput ofF sig consumed (o.ic.getD s.nch) inlen o mask
+          let input := makeInput ofF sig consumed (o.ic.getD s.nch) inlen o mask s.inputFramesNext s.inputFramesMax
           let inn := s.inputFramesNext
           let (s', r) := if partial_ then processPartialW coreA s (if inNone then none else some input) mask
                          else processW coreA s input mask
